@@ -21,6 +21,7 @@ EXPLANATION = (
     "C13.6 Command::spawn/exec hand each configured attribute to the child as the builder's own field read in place and modify no builder field (a Command can be spawned again), and Command::env records the variable on every feasible path (enum-variant refinement of self.env), in both feature sets; "
     "C13.7 Child::wait/try_wait wait on the child's own pid, WNOHANG only in try_wait, and return the cached status afterwards. "
     "C13.2 also: every kernel call on the child's side is a configured step, the status report or exit (nothing else touches what the new program inherits). "
+    "C13.2 also: the result of every configured child step is propagated (a failing dup2/chdir/setuid/setgid/setpgid is reported, never skipped). "
     "NOT decided: what the exec'd program observes (kernel), process-tree observation, uid/gid semantics.")
 ASSUMPTIONS = ["fork returns 0 exactly in the child", "a diverging call (-> !) never returns"]
 
